@@ -19,10 +19,7 @@ theorem preOp_error {op : PrefixOp} {a : Val} {c : Ctl} (h : preOp op a = .error
 
 theorem intOp_benign (op x y sp st c st') (h : intOp op x y sp st = (.error c, st')) : Benign c := by
   cases op <;> simp only [intOp] at h <;>
-    first
-    | (cases h; done)
-    | (cases h; trivial)
-    | (split at h <;> first | (cases h; done) | (cases h; trivial) | (split at h <;> first | (cases h; done) | (cases h; trivial)))
+    repeat' (first | (cases h <;> trivial) | split at h)
 
 theorem floatOp_benign (op x y sp st c st') (h : floatOp op x y sp st = (.error c, st')) : Benign c := by
   cases op <;> simp only [floatOp] at h <;>
